@@ -565,7 +565,7 @@ func c18Ops(rich bool) func(key string, hist []ROp) []ROp {
 		}
 		nameLists := [][]string{{}, {"a"}, {".."}, {"a", "b"}, {"b"}, {"..", "a"}}
 		if rich {
-			nameLists = append(nameLists, []string{"..", ".."}, []string{"a", "a"}, []string{"..", "b"})
+			nameLists = append(nameLists, []string{"..", ".."}, []string{"a", "a"}, []string{"..", "b"}, []string{"..", "..", "a"}, []string{"..", "..", "b"}, []string{"..", "..", ".."})
 		}
 		for h := 0; h < n; h++ {
 			for _, nl := range nameLists {
@@ -656,6 +656,47 @@ func c18(c *core.Ctx) {
 	c.Set("bfs_fixpoint", st.Fixpoint)
 	if !st.Complete {
 		c.NotExhaustive("time budget (sequential part)")
+	}
+	// a second search from a non-initial state: a depth-3 tree with one
+	// handle deep inside it and one at the root (states the first search
+	// only reaches beyond its depth bound)
+	prelude := []ROp{
+		{Kind: "attach"}, {Kind: "attach"},
+		{Kind: "create", H: 0, Name: "a", Dir: true}, {Kind: "clunk", H: 0}, // /a
+		{Kind: "walk", H: 0, Names: []string{"a"}}, {Kind: "create", H: 1, Name: "b", Dir: true}, {Kind: "clunk", H: 1}, // /a/b
+		{Kind: "walk", H: 0, Names: []string{"a"}}, {Kind: "create", H: 1, Name: "a", Dir: true}, {Kind: "clunk", H: 1}, // /a/a
+		{Kind: "walk", H: 0, Names: []string{"a", "b"}}, {Kind: "create", H: 1, Name: "a", Dir: true}, {Kind: "clunk", H: 1}, // /a/b/a
+		{Kind: "walk", H: 0, Names: []string{"a", "b", "a"}}, // h0 = /, h1 = /a/b/a (closed)
+	}
+	d2 := 3
+	if !c.Quick() {
+		d2 = 5
+	}
+	deepOps := c18Ops(true)
+	st2 := explore.BFS(explore.SeqSpec[ROp]{
+		Ops: deepOps,
+		Exec: func(hist []ROp) explore.SeqResult[ROp] {
+			return c18Exec(append(append([]ROp{}, prelude...), hist...))
+		},
+		MaxDepth: d2,
+		Workers:  runtime.NumCPU(),
+		Deadline: c.Deadline,
+	})
+	c.Count(st2.Transitions, st2.States, st2.Transitions, st2.Transitions)
+	for k, v := range st2.Outcomes {
+		c.Outcome("deep:"+k, v)
+	}
+	c.Set("bfs_from_deep_tree_depth", st2.Depth)
+	if !st2.Complete {
+		c.NotExhaustive("time budget (search from the deep tree)")
+	}
+	for _, v := range st2.Viol {
+		full := append(append([]ROp{}, prelude...), v.Hist...)
+		var hs []string
+		for _, o := range full {
+			hs = append(hs, o.String())
+		}
+		c.Violation(v.Sig, v.Msg, map[string]any{"history": full, "history_text": hs})
 	}
 	for _, v := range st.Viol {
 		var hs []string
